@@ -306,6 +306,20 @@ def execute_hist(case):
                     if wc_ is not None:
                         wc_["env"] = dict(op[2]["options"]["env"])
                         classes.add('env-changed-at-run-time')
+                elif len(op[2]["options"]) > 1:
+                    # a refused multi-option set may have applied the
+                    # options that came before the offending one (open
+                    # finding R7, the business of C11): the configured
+                    # environment is then what the daemon itself reports
+                    wc_ = wcfg.get(op[2].get("name"))
+                    cur = h_.option(op[2].get("name"), 'env')
+                    if wc_ is not None and isinstance(cur, dict):
+                        if cur != wc_.get("env"):
+                            classes.add('refused-set-changed-env(R7)')
+                            # (the refused request never got to reload the
+                            # workers: the live ones are not judged)
+                            wc_["r7"] = True
+                        wc_["env"] = dict(cur)
             check_spawns()
             if not viols:
                 check_wids()
@@ -330,7 +344,8 @@ def execute_hist(case):
             # the workers: once everything has settled no live worker still
             # runs with the old value (send_hup watchers only get a SIGHUP)
             for name, wc in wcfg.items():
-                if not wc.get("tagged") or wc.get("send_hup"):
+                if not wc.get("tagged") or wc.get("send_hup") or \
+                        wc.get("r7"):
                     continue
                 if h.status(name) != 'active':
                     continue
